@@ -1213,6 +1213,42 @@ func c03Run(c *core.Ctx) {
 		}
 	}
 
+	// (f) name-resolution error paths: parsing includes resolving every name to
+	// a scalar or an array, and a conflict must come back as a positioned error.
+	// One function whose parameter is named like a local, a special variable, a
+	// global or the function itself x every pair of uses of that parameter
+	// (scalar-like, array-like, passed on) x every use of a global in BEGIN.
+	if strings.Contains(parts, "a") {
+		names := []string{"p", "NF", "RSTART", "FS", "x", "ENVIRON", "f"}
+		uses := []string{"N = 1", "N[1] = 1", "print N", "print N[1]", "N++", "delete N", "delete N[1]", "for (k in N) ;", "split(\"\", N)", "n = length(N)", "g(N)", "f(N)", "getline N", "(1 in N)", "sub(/a/, \"\", N)", "return N", "$N = 1", "N = N[1]"}
+		begins := []string{"", "BEGIN { f(x) }", "BEGIN { f(x); x = 1 }", "BEGIN { f(x); x[1] = 1 }", "BEGIN { x[1]; f(x) }", "BEGIN { f(NF) }", "BEGIN { f(ENVIRON) }", "BEGIN { f() }", "BEGIN { NF[1] = 1 }", "BEGIN { f(f) }"}
+		for _, name := range names {
+			for i, u1 := range uses {
+				for j, u2 := range uses {
+					if !c.Mine() || c.Expired() {
+						continue
+					}
+					_ = i
+					_ = j
+					for _, bg := range begins {
+						for _, helper := range []string{"function g(q) { q[1] = 1 }", "function g(q) { q = 1 }", ""} {
+							body := strings.ReplaceAll(u1+"; "+u2, "N", name)
+							buf = append(buf[:0], "function f("...)
+							buf = append(buf, name...)
+							buf = append(buf, ") { "...)
+							buf = append(buf, body...)
+							buf = append(buf, " }\n"...)
+							buf = append(buf, helper...)
+							buf = append(buf, '\n')
+							buf = append(buf, bg...)
+							r.check(buf, "names", nil)
+						}
+					}
+				}
+			}
+		}
+	}
+
 	// (b) corpus: prefixes, deletions, substitutions
 	maxFile, maxLit := 2048, 300
 	if thorough {
@@ -1299,7 +1335,8 @@ func init() {
 			"(b) every prefix, every 1-byte deletion and every 1-byte substitution from 9 bytes at every offset of every corpus source (testdata programs up to 2 KiB quick / 8 KiB thorough and every string literal of the repo's test files); " +
 			"(c) 50 nesting towers / flat repetitions at k = 1..max with the text reaching 32 KiB, closed / unclosed / truncated; " +
 			"(e) every sequence of <=3 statements over a 29-statement alphabet (loops with empty bodies, jump statements in and out of place, empty statements) in 5 containers x 2 separators; " +
-			"(d) token sequences over a 36-token parser-oriented alphabet (statement keywords, brackets, getline, in, regex, ?:, <, |, newline ...): every sequence of <=4 tokens and every sequence of 5 (thorough 6) tokens starting with a statement keyword, as the body of BEGIN { } and (<=3 tokens) at top level. " +
+			"(d) token sequences over a 36-token parser-oriented alphabet (statement keywords, brackets, getline, in, regex, ?:, <, |, newline ...): every sequence of <=4 tokens and every sequence of 5 (thorough 6) tokens starting with a statement keyword, as the body of BEGIN { } and (<=3 tokens) at top level; " +
+			"(f) name-resolution error paths: one function whose parameter is named like a local, a special variable, a global or the function itself x every ordered pair of 18 uses of it (scalar-like, array-like, passed on) x 10 BEGIN blocks using a global x 3 helper functions. " +
 			"A state is one source text; a transition is one lexer API call (Scan, or ScanRegex after a division token — all 2^k choices are explored when the text has <=10 slashes, else 3 fixed policies) compared with the reference lexer; " +
 			"evaluations are ParseProgram calls plus runs of the real binary; a distinct outcome is accepted / (error message kind, line class, column class) / panic",
 		Assumptions: []string{
